@@ -50,3 +50,50 @@ func upgradeMergeReadsStored(c *Ctx, P string) []Obligation {
 			Target: StoreTo(`^codec\.(UpgradeHeight|OldUpgradeHeight|UpgradeFeatureMap)$`).ExceptVal(`^var:newUpgrade\.(Height|OldUpgradeHeight)$|^codec\.SliceToExistingMap\(\(\*x/gov/types\.Upgrade\)\.GetFeatures\(&var:newUpgrade\), codec\.UpgradeFeatureMap\)$`), Why: "the running node's activation schedule is taken from the merged upgrade"},
 	})
 }
+
+// nodesGenesisImport (C43): the node-side import files everything the export carries.
+func nodesGenesisImport(c *Ctx, P string) []Obligation {
+	g := "x/nodes.InitGenesis"
+	ctx0 := `invoke types\.Ctx\.WithBlockHeight\(ctx, 0\)`
+	v := `var:data\.Validators\[\(phi:rangeindex \+ 1\)\]`
+	pv := `var:data\.PrevStateValidatorPowers\[\(phi:rangeindex \+ 1\)\]`
+	out := []Obligation{
+		c.edgeMust(P, "nodes.import.admitted-node-indexed-by-chain", g, `^\(x/nodes/types\.Validator\)\.IsUnstaked\(`+v+`\)$`, false, `^`+kN+`SetStakedValidatorByChains\(keeper, `+ctx0+`, `+v+`\)`, 1, "every admitted node is entered in the per-chain index (sessions are drawn from it)"),
+		c.edgeMust(P, "nodes.import.prev-state-powers-restored", g, `^lt\(\(phi:rangeindex \+ 1\), builtin\.len\(var:data\.PrevStateValidatorPowers\)\)$`, true, `^`+kN+`SetPrevStateValPower\(keeper, `+ctx0+`, `+pv+`\.Address, `+pv+`\.Power\)`, 1, "every exported previous-state power is restored (the next validator-set update is computed against it)"),
+		c.loopsExitOnlyAtHeader(P, "nodes.import.visits-every-record", g, "no exported record is skipped because an earlier one was"),
+	}
+	out = append(out, c.Rows([]Row{
+		{Prop: P, ID: "nodes.import.previous-proposer-restored", Fn: g, Assume: []Lit{T(`^nonnil\(var:data\.PreviousProposer\)$`)},
+			Barrier: []string{`^` + kN + `SetPreviousProposer\(keeper, ` + ctx0 + `, var:data\.PreviousProposer\)`}, Target: TargetAnyReturn(), Why: "an exported previous proposer is restored (the first block's proposer reward goes to it)"},
+		{Prop: P, ID: "nodes.import.total-power-restored", Fn: g,
+			Barrier: []string{`^` + kN + `SetPrevStateValidatorsPower\(keeper, ` + ctx0 + `, var:data\.PrevStateTotalPower\)`}, Target: TargetAnyReturn(), Why: "the exported previous-state total power is restored"},
+	})...)
+	return out
+}
+
+// nodesBlockDuties (C25): what the nodes module does at the two ends of every block for slashing and jailing.
+func nodesBlockDuties(c *Ctx, P string) []Obligation {
+	ev := `var:req\.ByzantineValidators\[\(phi:rangeindex \+ 1\)\]`
+	out := c.Rows([]Row{
+		{Prop: P, ID: "duties.endblock-counts-jailed-blocks", Fn: "x/nodes/keeper.EndBlocker",
+			Barrier: []string{`^` + kN + `IncrementJailedValidators\(k, ctx\)`}, Target: TargetAnyReturn(), Why: "every block counts one more jailed block for every jailed node (the count that leads to the forced unstake)"},
+		{Prop: P, ID: "duties.double-sign-operands", Fn: "x/nodes/keeper.BeginBlocker",
+			Target: CallTo(`^` + kN + `handleDoubleSign\(`).Except(`^` + kN + `handleDoubleSign\(k, ctx, ` + ev + `\.Validator\.Address, ` + ev + `\.Height, ` + ev + `\.Time, ` + ev + `\.Validator\.Power\)$`), Why: "the evidence's own validator, height, time and power are what is punished"},
+	})
+	out = append(out,
+		c.edgeMust(P, "duties.fresh-double-sign-evidence-is-punished", "x/nodes/keeper.BeginBlocker", `^lt\(conv<int64>\(phi:evidenceAgeInBlocks\), \(invoke types\.Ctx\.BlockHeight\(ctx\) - `+ev+`\.Height\)\)$`, false, `^`+kN+`handleDoubleSign\(k, ctx, `, 1, "duplicate-vote evidence not older than the maximum age is handed to the double-sign handling (age = current height minus evidence height, inclusive bound)"),
+		c.loopsExitOnlyAtHeader(P, "duties.every-evidence-and-vote-visited", "x/nodes/keeper.BeginBlocker", "every vote and every piece of evidence of the block is looked at"),
+	)
+	return out
+}
+
+// upgradeMergeBranches (C37): what each kind of upgrade message does to the stored upgrade.
+func upgradeMergeBranches(c *Ctx, P string) []Obligation {
+	isFeature := `^eq\("FEATURE", \(x/gov/types\.Upgrade\)\.UpgradeVersion\(var:newUpgrade\)\)$`
+	return []Obligation{
+		c.edgeMust(P, "merge.feature-only.version-kept", fnUpgAfter, isFeature, true, `store:^var:newUpgrade\.Version = var:oldUpgrade\.Version$`, 1, "a feature-only message keeps the stored version"),
+		c.edgeMust(P, "merge.feature-only.height-kept", fnUpgAfter, isFeature, true, `store:^var:newUpgrade\.Height = var:oldUpgrade\.Height$`, 1, "and the stored codec-upgrade height"),
+		c.edgeMust(P, "merge.feature-only.old-height-kept", fnUpgAfter, isFeature, true, `store:^var:newUpgrade\.OldUpgradeHeight = var:oldUpgrade\.OldUpgradeHeight$`, 1, "and the remembered previous height"),
+		c.edgeMust(P, "merge.feature-only.features-merged", fnUpgAfter, isFeature, true, `store:^var:newUpgrade\.Features = codec\.CleanUpgradeFeatureSlice\(builtin\.append\(var:oldUpgrade\.Features, var:newUpgrade\.Features\)\)$`, 1, "and merges its features into the stored ones"),
+	}
+}
